@@ -14,6 +14,7 @@ the later alternatives: the tactics below use `ring1`.
 All names carry the prefix `epv_semi_`.
 -/
 import EPV.Robust
+import EPV.Lemmas.Bridge.SemiAttr
 import Mathlib.Tactic.Ring.RingNF
 import Mathlib.Tactic.FieldSimp
 import Mathlib.Tactic.Linarith
@@ -50,8 +51,8 @@ macro "epv_semi_lin" : tactic =>
   `(tactic| first
     | assumption
     | linarith
-    | (push_neg; linarith)
-    | (push_neg at *; linarith)
+    | (push Not; linarith)
+    | (push Not at *; linarith)
     | (intro h; linarith)
     | nlinarith)
 
@@ -63,7 +64,7 @@ macro "epv_semi_iff" : tactic =>
     | exact not_lt
     | exact not_le
     | (constructor <;> intro h <;>
-        first | exact h | linarith | (push_neg at h ⊢; linarith) | nlinarith
+        first | exact h | linarith | (push Not at h ⊢; linarith) | nlinarith
               | (ring_nf at h ⊢; first | exact h | linarith)))
 
 /-- tree-level identity of a generated model: unfold the tree, split on the traced path conditions,
@@ -92,12 +93,158 @@ elab "epv_semi_prune1" : tactic => withMainContext do
          first | assumption | (simp only [epv_cond]; epv_semi_lin) | (simp only [epv_cond]; norm_num; done)
                | (simp only [epv_cond]; simp only [*]; norm_num; done)
        simp only [if_pos hprune]
-       clear hprune)
+       try clear hprune)
     | (have hprune : ¬ $stx := by
          first | assumption | (simp only [epv_cond]; epv_semi_lin) | (simp only [epv_cond]; norm_num; done)
                | (simp only [epv_cond]; simp only [*]; norm_num; done)
        simp only [if_neg hprune]
-       clear hprune)))
+       try clear hprune)))
 
-/-- prune a traced decision tree by everything the context decides (see `epv_semi_prune1`) -/
-macro "epv_semi_prune" : tactic => `(tactic| repeat epv_semi_prune1)
+/-- decide one traced condition (or its negation) from the context: it is a hypothesis as it stands, or follows
+by linear arithmetic after unfolding (cheap on purpose: it is tried on every condition along a path) -/
+macro "epv_semi_decide" : tactic =>
+  `(tactic| first
+    | assumption
+    | (simp only [epv_cond]; first | assumption | linarith | (intro h; linarith) | (push Not; linarith)))
+
+namespace EPV.Bridge.SemiTac
+open Lean Elab Tactic Meta in
+/-- walk the decision trees in `e` from their roots, following the branch `decide` selects; stop where it cannot decide -/
+partial def walkIte (decide : Expr → TacticM (Option Bool)) (e : Expr) : TacticM Unit := do
+  if e.isAppOfArity ``ite 5 && !(e.getArg! 1).hasLooseBVars then
+    match ← decide (e.getArg! 1) with
+    | some true => walkIte decide (e.getArg! 3)
+    | some false => walkIte decide (e.getArg! 4)
+    | none => pure ()
+  else
+    match e with
+    | .app f a => walkIte decide f; walkIte decide a
+    | .lam _ _ b _ => walkIte decide b
+    | .forallE _ t b _ => walkIte decide t; walkIte decide b
+    | .letE _ _ v b _ => walkIte decide v; walkIte decide b
+    | .mdata _ b => walkIte decide b
+    | .proj _ _ b => walkIte decide b
+    | _ => pure ()
+end EPV.Bridge.SemiTac
+
+namespace EPV.Bridge.SemiTac
+/-- marker left in the context by `epv_semi_facts`: "the context does not decide `c`" (so that the many goals a
+later split produces do not try again) -/
+def Undecided (_c : Prop) : Prop := True
+
+open Lean Elab Tactic Meta in
+/-- decide the conditions along the spines of the decision trees in `e` (each distinct condition once);
+returns the names of the facts added to the context.  With `keep`, undecided conditions get an `Undecided` marker. -/
+def spineFacts (e : Expr) (keep : Bool) : TacticM (Array Ident) := do
+  let cache ← IO.mkRef (#[] : Array (Expr × Option Bool))
+  let names ← IO.mkRef (#[] : Array Ident)
+  let decide (c : Expr) : TacticM (Option Bool) := withMainContext do
+    for (c', r) in (← cache.get) do
+      if c' == c then return r
+    -- a marker from an earlier `epv_semi_facts`?
+    for d in (← getLCtx) do
+      if d.isImplementationDetail then continue
+      let ty ← instantiateMVars d.type
+      if ty.isAppOfArity ``Undecided 1 && ty.getArg! 0 == c then
+        cache.modify (·.push (c, none))
+        return none
+    let stx ← Term.exprToSyntax c
+    let n := mkIdent (Name.mkSimple s!"hprune{(← cache.get).size}")
+    let r ← (do
+      try
+        withoutRecover (evalTactic (← `(tactic| have $n : $stx := by epv_semi_decide)))
+        names.modify (·.push n)
+        pure (some true)
+      catch _ =>
+        try
+          withoutRecover (evalTactic (← `(tactic| have $n : ¬ $stx := by epv_semi_decide)))
+          names.modify (·.push n)
+          pure (some false)
+        catch _ =>
+          if keep then
+            evalTactic (← `(tactic| have $n : EPV.Bridge.SemiTac.Undecided $stx := trivial))
+          pure none)
+    cache.modify (·.push (c, r))
+    return r
+  walkIte decide e
+  names.get
+end EPV.Bridge.SemiTac
+
+open Lean Elab Tactic Meta in
+/-- `epv_semi_prune`: prune the traced decision trees in the goal by everything the context decides.  Each tree is
+walked from its root: the condition `c` of `if c then a else b` is decided (`epv_semi_decide`; each distinct
+condition once), the walk goes on in the selected branch and stops at the first condition the context does not
+decide; then the goal is rewritten with all the decided conditions at once.  It never looks at the *number* of a
+condition, so the order in which the Python makes its tests does not matter. -/
+elab "epv_semi_prune" : tactic => withMainContext do
+  let g ← instantiateMVars (← getMainTarget)
+  let ns ← EPV.Bridge.SemiTac.spineFacts g false
+  if ns.isEmpty then return
+  let lems ← ns.mapM fun n => `(Lean.Parser.Tactic.simpLemma| $n:ident)
+  evalTactic (← `(tactic| simp only [$lems,*, if_true, if_false]))
+  for n in ns do
+    try evalTactic (← `(tactic| clear $n)) catch _ => pure ()
+
+open Lean Elab Tactic Meta in
+/-- `epv_semi_facts t`: `t` is an application of a tree-level generated definition (e.g. `M.outcome p`).  Decides the
+conditions along the spine of its decision tree as `epv_semi_prune` does and LEAVES the facts in the context (plus
+a marker for the first undecided condition), so that the `epv_semi_prune` calls in the goals of a later split find
+them by `assumption`. -/
+elab "epv_semi_facts " t:term : tactic => withMainContext do
+  let e ← elabTerm t none
+  let e ← instantiateMVars e
+  let some body ← unfoldDefinition? e | throwError "epv_semi_facts: cannot unfold{indentExpr e}"
+  let _ ← EPV.Bridge.SemiTac.spineFacts body true
+
+open Lean Elab Tactic Meta in
+/-- split on the sign of the argument of one absolute value occurring in the goal or in a hypothesis
+(`abs_cases`), rewrite `|X|` everywhere accordingly; the sign fact stays in the context -/
+elab "epv_semi_abs_split1" : tactic => withMainContext do
+  let check (e : Expr) : Option Expr := e.find? (fun s => s.isAppOfArity ``abs 4 && !s.hasLooseBVars)
+  let mut found : Option Expr := check (← instantiateMVars (← getMainTarget))
+  if found.isNone then
+    for d in (← getLCtx) do
+      if d.isImplementationDetail then continue
+      if let some s := check (← instantiateMVars d.type) then
+        found := some s
+        break
+  let some s := found | throwError "epv_semi_abs_split1: no absolute value"
+  let x ← Term.exprToSyntax (s.getArg! 3)
+  evalTactic (← `(tactic| rcases abs_cases $x with ⟨habs, hsgn⟩ | ⟨habs, hsgn⟩ <;>
+    (simp only [habs] at * <;> clear habs)))
+
+/-- linear arithmetic with absolute values: case split on the sign of every `|X|`, then `epv_semi_lin` -/
+macro "epv_semi_abs_lin" : tactic =>
+  `(tactic| ((repeat' epv_semi_abs_split1) <;> epv_semi_lin))
+
+open Lean Elab Tactic Meta in
+/-- case analysis on the outermost `if c then _ else _` of the goal (`by_cases`, goal rewritten with
+`if_pos` / `if_neg`); linear in the number of leaves when repeated along a traced decision tree -/
+elab "epv_semi_split1" : tactic => withMainContext do
+  let g ← instantiateMVars (← getMainTarget)
+  let some e := g.find? (fun e => e.isAppOfArity ``ite 5 && !(e.getArg! 1).hasLooseBVars)
+    | throwError "epv_semi_split1: no if-then-else in the goal"
+  let stx ← Term.exprToSyntax (e.getArg! 1)
+  evalTactic (← `(tactic| by_cases hsplit : $stx <;>
+    first | simp only [if_pos hsplit] | simp only [if_neg hsplit]))
+
+/-- walk a traced decision tree: decide what the context decides, split on the rest -/
+macro "epv_semi_walk" : tactic => `(tactic| repeat' (first | epv_semi_prune1 | epv_semi_split1))
+
+/-- proof of a bridge lemma `M.L<i>.<field> … = <closed form>` -/
+macro "epv_semi_bridge_leaf" : tactic =>
+  `(tactic| first | rfl | (simp only [epv_leaf] <;> epv_semi_eq))
+
+/-- proof of a bridge lemma `M.L<i>.<field>_d<v> … = <closed form>` -/
+macro "epv_semi_bridge_deriv" : tactic =>
+  `(tactic| first | rfl | (simp only [epv_deriv] <;> epv_semi_eq))
+
+/-- proof of a bridge lemma `M.c<i> … ↔ <documented test>` -/
+macro "epv_semi_bridge_cond" : tactic =>
+  `(tactic| first
+    | exact Iff.rfl
+    | (simp only [epv_cond] <;>
+       first
+       | epv_semi_iff
+       | (ring_nf; done)
+       | (constructor <;> intro h <;> ring_nf at h ⊢ <;> first | exact h | linarith)))
